@@ -160,25 +160,48 @@ def r2_upper_bound(ctx):
             ctx.check(ok, f.qual + f"#{ax}", f"{ax}.stop <= {size} enforced" if ok else f"{ax}.stop is not compared with {size}", where=f, node=f.node)
     init = ctx.func(f"{FD}.__init__")
     calls = stmt_calls(init, ctx.R, {f"{U}:check_fit_ranges"})
-    ctx.check(len(calls) == 2, init.qual + "#check-calls", "both target layouts (3-D time domain, 2-D) are checked" if len(calls) == 2 else f"{len(calls)} check_fit_ranges calls (expected 2)", where=init, node=calls[0] if calls else init.node)
-    dimmap = {"rows": "y", "cols": "x", "readout_times": "readout_time"}
-    for c in calls:
-        for k, dim in dimmap.items():
-            a = kw(c, k)
-            if a is None:
-                continue
-            # the definition that reaches this call
-            from sa.cfg import defs_reaching
+    ctx.check(len(calls) >= 1, init.qual + "#check-calls", "the declared ranges are checked against the target" if calls else "no check_fit_ranges call", where=init, node=calls[0] if calls else init.node)
+    # decided per path through the constructor (sa/paths.py): every path that stores the (sliced) targets has passed
+    # exactly one check_fit_ranges(target range, output range, rows=len(T['y']), cols=len(T['x']),
+    # readout_times=len(T['readout_time']) | None) where T is the very array that is sliced afterwards
+    from sa.paths import enumerate_paths
 
-            g = ctx.cfg(init)
-            vals = []
-            for n in [n for n in g.nodes if n.ast is not None and n.kind == "stmt" and contains(n.ast, c)]:
-                for d in defs_reaching(g, dotted(a), n):
-                    vals.append(norm(getattr(d.ast, "value", None)) if d is not g.entry else None)
-            ok = bool(vals) and all(v == f"len(targets['{dim}'])" for v in vals)
-            ctx.check(ok, init.qual + f"#size:{k}@{c.lineno}", f"{k} = len(targets['{dim}'])" if ok else f"{k} is {vals} instead of the size of the target's '{dim}' axis", where=init, node=c)
-        ok = dotted(kw(c, "target_fit_range")) == "target_fit_range" and dotted(kw(c, "out_fit_range")) == "out_fit_range"
-        ctx.check(ok, init.qual + f"#ranges@{c.lineno}", "checks the ranges that will be used" if ok else "checks other ranges than the ones used", where=init, node=c)
+    dimmap = {"rows": "y", "cols": "x"}
+    n_paths = 0
+    saw_3d = False
+    for q_ in enumerate_paths(init.node.body, max_paths=2048):
+        if q_.exit == "raise":
+            continue
+        st_ = [e_ for e_ in q_.stores("self.all_target_data") if e_.target == "self.all_target_data" and e_.value is not None and not (isinstance(e_.value, ast.Constant) and e_.value.value is None)]
+        if not st_:
+            continue
+        n_paths += 1
+        sliced = st_[-1].value
+        base = sliced.func.value if isinstance(sliced, ast.Call) and isinstance(sliced.func, ast.Attribute) and sliced.func.attr == "isel" else None
+        cs_ = q_.called("check_fit_ranges")
+        tag = "3d" if any(pol and "time" in t for t, pol in q_.cond_texts()) else "2d"
+        if base is None:
+            # targets used whole: legitimate only where no fit range is in force at all
+            rng = [e_ for e_ in q_.stores("self.targ_fit_range") if e_.target == "self.targ_fit_range"]
+            unranged = bool(rng) and isinstance(rng[-1].value, ast.Constant) and rng[-1].value.value is None
+            ctx.check(unranged, init.qual + "#checked-before-use:whole", "targets used whole where no fit range applies" if unranged else f"on the path {q_.cond_texts()[:3]} the targets are stored unsliced although a fit range is in force", where=init, node=st_[-1].node)
+            continue
+        if len(cs_) != 1:
+            ctx.fail(init.qual + f"#checked-before-use:{tag}", f"on the path {q_.cond_texts()[:3]} the targets are sliced after {len(cs_)} check_fit_ranges calls (expected exactly one)", where=init, node=st_[-1].node)
+            continue
+        c_ = cs_[0][1]
+
+        def _len_of(e_, dim):
+            return isinstance(e_, ast.Call) and call_name(e_) == "len" and len(e_.args) == 1 and isinstance(e_.args[0], ast.Subscript) and isinstance(e_.args[0].slice, ast.Constant) and e_.args[0].slice.value == dim and norm(e_.args[0].value) == norm(base)
+
+        ok = all(_len_of(kw(c_, k), dim) for k, dim in dimmap.items())
+        rt = kw(c_, "readout_times")
+        ok3 = rt is None or (isinstance(rt, ast.Constant) and rt.value is None) or _len_of(rt, "readout_time")
+        saw_3d = saw_3d or (rt is not None and _len_of(rt, "readout_time"))
+        okr = dotted(kw(c_, "target_fit_range")) == "target_fit_range" and dotted(kw(c_, "out_fit_range")) == "out_fit_range"
+        ctx.check(ok and ok3 and okr, init.qual + f"#checked-before-use:{tag}", "ranges checked against the sizes of the array that is sliced afterwards" if ok and ok3 and okr else f"check_fit_ranges receives rows={norm(kw(c_, 'rows'))[:40] if kw(c_, 'rows') is not None else None}, cols={norm(kw(c_, 'cols'))[:40] if kw(c_, 'cols') is not None else None}, readout_times={norm(rt)[:40] if rt is not None else None}: not the sizes of the target that is sliced / not the declared ranges", where=init, node=getattr(c_, "_src", init.node), facts={"path": [f"{t}={p_}" for t, p_ in q_.cond_texts()][:6]})
+    ctx.check(saw_3d, init.qual + "#checked-before-use:time-axis", "time-domain targets are checked against their readout_time size" if saw_3d else "no path checks the time range against the target's readout_time size", where=init, node=calls[0] if calls else init.node)
+    ctx.floor(n_paths, 2)
 
 
 def r3_same_range_both_sides(ctx):
